@@ -737,6 +737,44 @@ def _check_reconnect(run, repo, world, mod):
     sched_ids = {n.id for n in ccfg.reachable if n.ast is not None and
                  n.kind in ("stmt", "test") and any(
                      c is x for c in sched for x in ast.walk(n.ast))}
+    # what is opened is looked up on this attempt: the node a gateway comes
+    # back under (hidraw3 -> hidraw4, the shipped udev rule globs for it) is
+    # found only if the pattern is expanded again - nothing the object
+    # remembers from an earlier attempt may name the file
+    remembered = set()
+    grew = True
+    local_src = {}
+    for n in ast.walk(cfn):
+        if isinstance(n, ast.Assign):
+            for t_ in n.targets:
+                for x in ast.walk(t_):
+                    if isinstance(x, ast.Name) and isinstance(
+                            x.ctx, ast.Store):
+                        local_src.setdefault(x.id, []).append(n.value)
+        elif isinstance(n, (ast.For, ast.comprehension)):
+            for x in ast.walk(n.target):
+                if isinstance(x, ast.Name):
+                    local_src.setdefault(x.id, []).append(n.iter)
+    for oc in opens:
+        if not oc.args:
+            continue
+        seen_n, todo = set(), [oc.args[0]]
+        while todo:
+            e_ = todo.pop()
+            for x in ast.walk(e_):
+                if isinstance(x, ast.Attribute) and isinstance(
+                        x.value, ast.Name) and x.value.id == "self" and \
+                        x.attr not in ("_path", "_glob"):
+                    remembered.add("self." + x.attr)
+                if isinstance(x, ast.Name) and x.id not in seen_n:
+                    seen_n.add(x.id)
+                    todo += local_src.get(x.id, [])
+    run.ob("R-RECONNECT", HID + ".hid.connect#path-looked-up-per-attempt",
+           not remembered,
+           "the file connect() opens is named by %s, which the object keeps "
+           "from an earlier attempt: a gateway that comes back under another "
+           "device node is never found again" % sorted(remembered),
+           where(mod, cfn))
     for oc in opens:
         p_, child = parent.get(id(oc)), oc
         handlers = None
